@@ -111,6 +111,8 @@ AddRange(w, n) == LET v == Append(w, n) IN IF Len(v) > NRanges THEN SubSeq(v, 2,
 IncLast(w, n) == IF w = <<>> THEN w ELSE [w EXCEPT ![Len(w)] = @ + n]
 Continues(d, ans) == d.last[1] = ans.x /\ d.last[2] = ans.lo /\ d.last[1] # -1
 
+CacheChunks == UNION {{e[2][i] : i \in 1..Len(e[2])} : e \in cache}
+
 (* one classification step of the deduper for chunks [idx, idx+n) of file f *)
 Decision(f, kind, idx, n, bytes, ans) ==
   /\ f \in DOMAIN content /\ n >= 1 /\ idx + n <= Len(content[f])
@@ -120,6 +122,9 @@ Decision(f, kind, idx, n, bytes, ans) ==
      /\ Chk("C05", kind # "new" => (Truthful(f, idx, n, ans) /\ bytes = b))
      /\ CASE kind = "new" ->
                /\ Chk("C14", pos \cap (dec[f].new \cup dec[f].dedup) = {})
+               \* C11, chunk by chunk: a chunk that the user's shard cache held when the session started is stored again
+               \* only under a hit that fragmentation prevention rejected (recombined and extended files included)
+               /\ Chk("C11", content[f][idx + 1] \in CacheChunks => idx \in dec[f].prev)
                \* a new chunk extends the last segment iff that segment is pending and ends at the pending xorb's end
                /\ LET d == dec[f]
                       ext == d.last[1] = 0 /\ d.last[2] = Len(d.pend) /\ Len(d.pend) > 0
@@ -217,7 +222,6 @@ ShardEnd(s, sh, res) ==
        ELSE /\ failed' = [failed EXCEPT ![s] = TRUE] /\ UNCHANGED <<recs, up>>
   /\ UNCHANGED <<clen, content, fsess, salt, status, xorbs, stored, sessPut, finished, dec, ptrs, cache>>
 
-CacheChunks == UNION {{e[2][i] : i \in 1..Len(e[2])} : e \in cache}
 
 Finish(s, f, hashId, refId, size, nbytes, m) ==
   /\ f \in DOMAIN content /\ fsess[f] = s /\ f \notin DOMAIN finished
@@ -255,6 +259,12 @@ Pointer(s, f, hashId, refId, size, nbytes) ==
   /\ UNCHANGED <<clen, content, fsess, salt, status, failed, xorbs, stored, sessPut, shardOpen, recs, dec, up, cache>>
 
 FilesOf(s) == {f \in DOMAIN finished : fsess[f] = s}
+\* C02, "after a successful session ... every file record in the uploaded shards references existing xorbs": judged when
+\* the session reports success, for the shards the store took from it
+ShardsRefStored(s) ==
+  \A sh \in DOMAIN shardOpen : (shardOpen[sh].sess = s /\ shardOpen[sh].done \in {"ok", "exists"}) =>
+     \A i \in 1..Len(shardOpen[sh].files) : \A j \in 1..Len(shardOpen[sh].files[i].segs) :
+        shardOpen[sh].files[i].segs[j][1] \in stored
 RECURSIVE SumField(_, _)
 SumField(fs, fld) == IF fs = {} THEN 0 ELSE LET f == CHOOSE f \in fs : TRUE IN finished[f][fld] + SumField(fs \ {f}, fld)
 
@@ -264,6 +274,7 @@ Finalize(s, m) ==
   /\ Chk("C16", \A f \in FilesOf(s) : /\ finished[f].hash \in DOMAIN recs
                                         /\ \A i \in 1..Len(recs[finished[f].hash]) : recs[finished[f].hash][i][1] \in stored)
   /\ Chk("C01", \A f \in FilesOf(s) : finished[f].hash \in DOMAIN recs)
+  /\ Chk("C02", ShardsRefStored(s))
   /\ Chk("C14", /\ m.total = SumField(FilesOf(s), "total") /\ m.new = SumField(FilesOf(s), "new")
                 /\ m.dedup = SumField(FilesOf(s), "dedup") /\ m.prevented = SumField(FilesOf(s), "prevented")
                 /\ m.tc = SumField(FilesOf(s), "tc") /\ m.nc = SumField(FilesOf(s), "nc")
@@ -304,6 +315,7 @@ ApiDone(s) ==
   /\ Chk("C16", \A f \in FilesOf(s) : /\ finished[f].hash \in DOMAIN recs
                                         /\ \A i \in 1..Len(recs[finished[f].hash]) : recs[finished[f].hash][i][1] \in stored)
   /\ Chk("C01", \A f \in FilesOf(s) : finished[f].hash \in DOMAIN recs)
+  /\ Chk("C02", ShardsRefStored(s))
   /\ Chk("C01", \A f \in DOMAIN content : fsess[f] = s => f \in DOMAIN finished)       \* one pointer per file
   /\ status' = [status EXCEPT ![s] = "ok"]
   /\ UNCHANGED <<clen, content, fsess, salt, failed, xorbs, stored, sessPut, shardOpen, recs, finished, dec, up, ptrs, cache>>
